@@ -46,15 +46,13 @@ type MaskField struct {
 func (f *MaskField) Call(s *slip.Scope, args slip.List, depth int) (result slip.Object) {
 	// Helper functions are defined in deposit-field.go.
 	slip.CheckArgCount(s, depth, f, args, 2, 2)
-	integer, _ := ToUnsignedByte(s, args[1], "integer", depth)
+	integer := integerArg(s, args[1], "integer", depth)
 	size, pos := byteSpecArg(s, args[0], depth)
 
-	ub := slip.UnsignedByte{Bytes: make([]byte, len(integer.Bytes))}
-	for i := uint(0); i < uint(size); i++ {
-		off := i + uint(pos)
-		ub.SetBit(off, integer.GetBit(off))
-	}
-	return convertUnsignedByte(&ub, args[1], false)
+	var bi big.Int
+	_ = bi.And(integer, bi.Lsh(byteMask(size), uint(pos)))
+
+	return integerResult(&bi, args[1])
 }
 
 // Place a value in the first position of a list or cons.
